@@ -883,6 +883,13 @@ func (rs *RemoteChunkStore) getStore(ctx context.Context, logger *logrus.Entry, 
 }
 
 func (rs *RemoteChunkStore) getOrCreateStore(ctx context.Context, logger *logrus.Entry, repoPath, nbfVerStr string) (RemoteSrvStore, error) {
+	// The repository path is chosen by the client: never let it name anything outside the served root.
+	cleaned := filepath.Clean(repoPath)
+	if filepath.IsAbs(repoPath) || cleaned == ".." || strings.HasPrefix(cleaned, "../") {
+		logger.WithField("repo_path", repoPath).Warn("rejecting repository path outside the served root")
+		return nil, status.Error(codes.InvalidArgument, "invalid repository path")
+	}
+	repoPath = cleaned
 	cs, err := rs.csCache.Get(ctx, repoPath, nbfVerStr)
 	if err != nil {
 		logger.WithError(err).Error("Failed to retrieve chunkstore")
